@@ -409,6 +409,13 @@ func (r *DocumentHandler) ResolveDocument(shortOrLongFormDID string,
 	}
 
 	// if document was not found on the blockchain and initial value has been provided resolve using initial value
+	// (a particular version was asked for: the initial value is not a version, and the error text may contain the
+	// version id the caller supplied)
+	resOpts, optsErr := document.GetResolutionOptions(opts...)
+	if optsErr != nil || resOpts.VersionID != "" || resOpts.VersionTime != "" {
+		return nil, err
+	}
+
 	if createReq != nil && strings.Contains(err.Error(), "not found") {
 		return r.resolveRequestWithInitialState(uniquePortion, shortOrLongFormDID, createReq, pv)
 	}
